@@ -49,11 +49,15 @@ Print Assumptions C20_results_independent_of_implicit_move.
 (* prior memory: homogeneous and heterogeneous queues *)
 Theorem C20_results_independent_of_prior_memory :
   forall a b a' b' n cs,
-    c_run_case GenCtor.eq_copy_inits_counters GenCtor.eq_move_inits_counters a b n cs
-    = c_run_case GenCtor.eq_copy_inits_counters GenCtor.eq_move_inits_counters a' b' n cs /\
-    c_run_case GenCtor.heq_copy_inits_counters GenCtor.heq_move_inits_counters a b n cs
-    = c_run_case GenCtor.heq_copy_inits_counters GenCtor.heq_move_inits_counters a' b' n cs.
-Proof. intros a b a' b' n cs. exact (conj (junk_independent a b a' b' n cs) (junk_independent a b a' b' n cs)). Qed.
+    c_run_case GenCtor.eq_copy_inits_counters GenCtor.eq_copy_counters_from_source
+               GenCtor.eq_move_inits_counters GenCtor.eq_move_counters_from_source a b n cs
+    = c_run_case GenCtor.eq_copy_inits_counters GenCtor.eq_copy_counters_from_source
+                 GenCtor.eq_move_inits_counters GenCtor.eq_move_counters_from_source a' b' n cs /\
+    c_run_case GenCtor.heq_copy_inits_counters GenCtor.heq_copy_counters_from_source
+               GenCtor.heq_move_inits_counters GenCtor.heq_move_counters_from_source a b n cs
+    = c_run_case GenCtor.heq_copy_inits_counters GenCtor.heq_copy_counters_from_source
+                 GenCtor.heq_move_inits_counters GenCtor.heq_move_counters_from_source a' b' n cs.
+Proof. intros a b a' b' n cs. exact (conj (junk_independent _ _ a b a' b' n cs) (junk_independent _ _ a b a' b' n cs)). Qed.
 Print Assumptions C20_results_independent_of_prior_memory.
 
 (* map kind: ordered (std::map with operator<) and hashed (std::unordered_map with std::hash and ==)
